@@ -181,11 +181,11 @@ def load_known():
 
 
 # ---------------- building real units ----------------
-def nasm(ctx, rel, out=None, extra=()):
-    """Assemble /repo/lib/<rel> with the repo's flags."""
+def nasm(ctx, rel, out=None, extra=(), drop=()):
+    """Assemble /repo/lib/<rel> with the repo's flags (drop: flags to leave out, for must-fail twins such as a non-SAFE_DATA build)."""
     src = os.path.join(LIB, rel)
-    out = out or os.path.join(ctx.scratch, rel.replace('/', '_') + '.o')
-    rc, o, _, _ = run(['nasm'] + NASM_FLAGS + list(extra) + ['-o', out, src])
+    out = out or os.path.join(ctx.scratch, rel.replace('/', '_') + ('_no' + '_'.join(d.strip('-D') for d in drop) if drop else '') + '.o')
+    rc, o, _, _ = run(['nasm'] + [f for f in NASM_FLAGS if f not in drop] + list(extra) + ['-o', out, src])
     if rc != 0:
         raise Inconclusive('nasm failed for %s: %s' % (rel, o[-500:]))
     ctx.note_source('lib/' + rel)
